@@ -10,7 +10,7 @@ LOG=/tmp/confirm_$ID.log; : > $LOG
 git checkout -q -- . ; rm -f $DEMO
 git apply --check $M/patch.diff >>$LOG 2>&1 || { echo "$ID: patch does not apply"; exit 1; }
 demo_src=$(ls $M/demo*_test.go $M/demo*.go 2>/dev/null | head -1)
-run() { for i in 1 2 3; do out=$(go test -count=1 "$@" 2>&1); rc=$?; echo "$out" >>$LOG; LAST="$out"; if echo "$out" | grep -q "signal: terminated\|signal: killed"; then sleep 5; continue; fi; return $rc; done; return 3; }
+run() { for i in 1 2 3; do out=$(go test ${CONFIRM_TAGS:+-tags $CONFIRM_TAGS} -count=1 "$@" 2>&1); rc=$?; echo "$out" >>$LOG; LAST="$out"; if echo "$out" | grep -q "signal: terminated\|signal: killed"; then sleep 5; continue; fi; return $rc; done; return 3; }
 cp $demo_src $DEMO
 run -run 'Demo|demo' ./$(dirname $DEMO)/ ; r_without=$?
 rm -f $DEMO
